@@ -10,6 +10,7 @@ DIMSETS = {
     "default": {1: ("x",), 2: ("x", "y"), 3: ("x", "y", "z"), 4: ("x0", "x1", "x2", "x3")},
     "renamed": {1: ("u",), 2: ("w", "u"), 3: ("u", "w", "v"), 4: ("d", "a", "c", "b")},
     "shuffled": {1: ("y",), 2: ("y", "x"), 3: ("z", "x", "y"), 4: ("z", "y", "x", "w")},  # the default component labels in another order
+    "vnamed": {1: ("V",), 2: ("I", "V"), 3: ("x", "V", "z"), 4: ("x", "y", "z", "V")},  # 'dV', 'dS' ... are real attributes of a mesh
     "kprefixed": {1: ("k_a",), 2: ("k_b", "k_a"), 3: ("k_a", "kb", "k_c"), 4: ("k_a", "k_b", "k_c", "k_d")},
 }
 
